@@ -49,6 +49,11 @@ StmtSeqs == {<<s>> : s \in Sends \cup Others}
             \cup {<<o, s>> : o \in Others, s \in {SSend(Lit(VMon(3)), A, -1, X), SSend(Var("amt"), Var("s"), -1, X), SSendAll(A, X), SSend(Lit(VMon(2)), A, 2, X)}}
             \cup {<<SSend(Sub(Lit(VMon(7)), Lit(VMon(2))), W, -1, X), SSend(Sub(Lit(VMon(7)), Lit(VMon(2))), A, -1, X)>>,
                   <<SSend(Sub(Lit(VMon(7)), Var("amt")), W, -1, X), STxMeta("k", Lit(VMon(7)))>>}
+            \* an account whose balance the program has loaded or saved receives funds before / after it gives
+            \cup {<<SSaveAll(a), SSend(Lit(VMon(3)), W, -1, a)>> : a \in {A, B}}
+            \cup {<<SSave(Lit(VMon(2)), A), SSend(Lit(VMon(3)), W, -1, A), SSend(Lit(VMon(3)), A, -1, X)>>,
+                  <<SSend(Lit(VMon(3)), W, -1, A), SSend(Lit(VMon(3)), A, -1, X)>>,
+                  <<SSend(Lit(VMon(3)), B, -1, A), SSendAll(A, X)>>}
             \cup {<<s, o>> : o \in {SFail, STxMeta("k", Lit(VStr("hello"))), STxMeta("dup", Var("amt")), SSave(Lit(VMon(2)), A)},
                              s \in {SSend(Lit(VMon(3)), A, -1, X), SSend(Var("amt"), W, -1, Var("s"))}}
 
